@@ -328,6 +328,22 @@ func cmdCheck(args []string) int {
 	// known findings: split obligations into the excluded case and the rest
 	obls = applyKnown(obls, known, *prop, prog, sp)
 	dischargeAll(obls, timeout, runtime.NumCPU())
+	{
+		// an obligation that merely ran out of time (a loaded machine, an unlucky solver run) gets one more run with three
+		// times the budget before it is reported; a real failure stays a failure, it only costs the extra time
+		var again []*Obligation
+		for _, o := range obls {
+			if !o.Cover && o.knownExpectedFail == nil && o.Result != nil && o.Result.Status != "unsat" && o.Result.Status != "sat" {
+				again = append(again, o)
+			}
+		}
+		if len(again) > 0 && len(again) <= 8 {
+			for _, o := range again {
+				o.splitConds = nil // the case split has been tried already
+			}
+			dischargeAll(again, timeout*3, runtime.NumCPU())
+		}
+	}
 
 	os.MkdirAll(filepath.Join(verifDir, "replays", *prop), 0o755)
 	violations := 0
